@@ -25,7 +25,7 @@ def run(ctx):
         os.environ["JAVA_TOOL_OPTIONS"] = (os.environ.get("JAVA_TOOL_OPTIONS", "") + " -XX:TieredStopAtLevel=1 -XX:ParallelGCThreads=2").strip()
     jobs = {}
     ex = cf.ThreadPoolExecutor(max_workers=6)
-    vcfg = "vec" if th else "vec3"
+    vcfg = "vec5" if th else "vec3"
     jobs["vec:" + vcfg] = ex.submit(ctx.tlc, "Retry", cfg="Retry_%s.cfg" % vcfg, workers=2, name="gen_" + vcfg, timeout=1800, heap="2g")
     for c in (["design", "design5"] if th else ["design"]):
         jobs["design:" + c] = ex.submit(ctx.tlc, "Retry", cfg="Retry_%s.cfg" % c, workers=4 if th else 2, name="design_" + c,
@@ -90,4 +90,4 @@ def run(ctx):
         "Save goes to a name that does not exist yet",
         "'permanent errors are not retried' is judged for the default configuration (feature backend-error-redesign on); with the flag off restic documents the deprecated behaviour (everything but Stat-not-found is retried) and only the other clauses are judged",
         "wrapped backend without HasFlakyErrors; back-off timers run in virtual time (testing/synctest) with both the fast test setting and the regular one (MaxElapsedTime 15 min)",
-        "scripts: all sequences of <= %d faults per operation, followed by an error-free backend or by the last fault for ever" % (4 if th else 3)])
+        "scripts: all sequences of <= %d faults per operation, followed by an error-free backend or by the last fault for ever" % (5 if th else 3)])
